@@ -30,7 +30,7 @@ type Tape struct {
 	RunSeed uint64 `json:"run_seed"`
 	Point   string `json:"point"`
 	Item    int    `json:"item"`
-	Mode    string `json:"mode"` // prefix | subst | field | shape | flow modes (see flows_test.go)
+	Mode    string `json:"mode"` // prefix | subst | field | shape | multi | flow modes (see flows_test.go)
 	From    int    `json:"from"`
 	Count   int    `json:"count"`
 	Sample  bool   `json:"sample,omitempty"` // draw Count deliveries at random from the mode's space instead of a contiguous range
@@ -215,9 +215,14 @@ func spaceOf(p *point, item []byte, mode string) int {
 		}
 		_, all := shapeNodes(item)
 		return len(all) * len(shapeNames)
+	case "multi":
+		return 1 << 30
 	}
 	return 0
 }
+
+// multiSeed is the run seed of the tape being executed (mode multi derives its faults from it).
+var multiSeed uint64
 
 // damage produces delivery d of the mode; ok=false when d is outside the space.
 func damage(p *point, item []byte, mode string, d int) (out []byte, desc string, ok bool) {
@@ -277,6 +282,29 @@ func damage(p *point, item []byte, mode string, d int) (out []byte, desc string,
 			}
 		}
 		return out, fmt.Sprintf("32-bit field at %d -> %s", pos, []string{"0", "1", "max"}[k]), true
+	case "multi":
+		// two or three faults of the single-fault modes, one after the other (each drawn over the space
+		// of the bytes the previous one left), all derived from the run seed and the delivery number
+		rng := core.NewRng(multiSeed).Derive(fmt.Sprint("c04multi/", d))
+		k := 2 + rng.Intn(2)
+		out = item
+		var descs []string
+		for i := 0; i < k; i++ {
+			m := []string{"subst", "field", "shape", "subst", "field"}[rng.Intn(5)]
+			if i == k-1 && rng.Chance(1, 4) {
+				m = "prefix"
+			}
+			sp := spaceOf(p, out, m)
+			if sp == 0 {
+				continue
+			}
+			b, ds, ok := damage(p, out, m, rng.Intn(sp))
+			if !ok {
+				continue
+			}
+			out, descs = b, append(descs, m+": "+ds)
+		}
+		return out, strings.Join(descs, "; then "), true
 	case "shape":
 		roots, all := shapeNodes(item)
 		ni, v := d/len(shapeNames), d%len(shapeNames)
@@ -487,6 +515,7 @@ func run(tapeJSON json.RawMessage, res *core.Result) {
 	if tp.Skip == 0 {
 		deliver(res, &tp, p.name, tp.Item, -1, "undamaged", item, p.consume)
 	}
+	multiSeed = tp.RunSeed
 	space := spaceOf(p, item, tp.Mode)
 	rng := core.NewRng(tp.RunSeed).Derive("c04")
 	for k := 0; k < tp.Count; k++ {
